@@ -60,15 +60,21 @@ EXACT = {
 
 
 def start_indices(start: float, dt: float, ulps: int = 8) -> List[int]:
-    """Admissible start indices floor(start/dt): the exact floor of the ratio r of the two floats and, when r lies
-    within ``ulps`` float64 ulps *below* an integer k, also k (a correctly rounded float division may land on k: the
-    quantifier's rounding clause). When r >= k exactly, k-1 is never admissible."""
+    """Admissible start indices for a start time ``start`` on a grid of step ``dt``, from the exact ratio r of the two
+    floats: when r lies within ``ulps`` float64 ulps of an integer k (a start time written k*dt, k/n or as a k-fold sum of
+    dt: the grid point k itself, whichever side of k the float quotient lands on) the index is k and nothing else;
+    otherwise floor(r). In between (more than ``ulps`` ulps but less than 1e-8 away from k: neither clearly on the grid
+    nor clearly off it; not generated) both are admissible."""
     r = Fr(start) / Fr(dt)
-    fl = r.numerator // r.denominator
-    out = {int(fl)}
-    k = round(r)
-    if 0 < k - r <= ulps * Fr(2) ** -52 * max(abs(r), 1):
-        out.add(int(k))
+    fl = int(r.numerator // r.denominator)
+    k = int(round(r))
+    gap = abs(r - k)
+    if gap <= ulps * Fr(2) ** -52 * max(abs(r), 1):
+        out = {k}
+    elif gap <= Fr(1, 10 ** 8):
+        out = {fl, k}
+    else:
+        out = {fl}
     return sorted(i for i in out if i >= 0)
 
 
